@@ -386,6 +386,7 @@ class Outcome:
         self.errors = []
         self.skipped = 0
         self.virtual_seconds = 0.0
+        self.maxes = {}
 
 
 def run_batch(mod, worlds, limit=60.0, deadline=None, known=None, stop_after_violation=True):
@@ -408,6 +409,8 @@ def run_batch(mod, worlds, limit=60.0, deadline=None, known=None, stop_after_vio
         out.virtual_seconds += float(payload.get("virtual_seconds", 0.0))
         for k, v in (payload.get("stats") or {}).items():
             out.stats[k] += v
+        for k, v in (payload.get("max") or {}).items():
+            out.maxes[k] = max(out.maxes.get(k, v), v)
         for k in payload.get("keys") or ():
             out.keys.add(k)
         if payload.get("sample") is not None and len(out.samples) < 4:
@@ -451,6 +454,7 @@ def write_evidence(mod, tier, seed, out, wall, extra=None):
         "worlds_per_hour": (out.evaluations / wall * 3600.0) if wall > 0 else 0.0,
         "simulated_seconds": float(out.virtual_seconds),
         "stats": dict(sorted(out.stats.items())),
+        "max": dict(sorted(out.maxes.items())),
         "fault_kinds_fired": {k[6:]: v for k, v in sorted(out.stats.items()) if k.startswith("fired.")},
         "inconclusive_worlds": len(out.inconclusive),
         "harness_errors": len(out.errors),
